@@ -128,6 +128,12 @@ GetLastOf(idx, sid, key) ==
 LastDot(s) == LET d == {i \in 2..Len(s) : SubSeq(s, i, i) = "."} IN IF d = {} THEN 0 ELSE MaxOf(d)
 StemOf(name) == IF LastDot(name) = 0 THEN name ELSE SubSeq(name, 1, LastDot(name) - 1)
 SideKey(p) == <<Front(p), StemOf(Concat(p[Len(p)]))>>
+\* seeded attribute data of the store universes (written as sidecar files by the harness):
+\* depends on the entry only through what two files sharing a sidecar have in common
+SideDataOf(e) == IF Len(e) \in {4, 5, 8, 9} THEN << <<"n", "len" \o ToString(Len(e))>>, <<"k3", e[3]>> >> ELSE <<>>
+GetterOf(ty) == LET i == {k \in DOMAIN Raw.getters : Raw.getters[k].type = ty}
+                IN IF i = {} THEN "" ELSE Raw.getters[CHOOSE k \in i : TRUE].getter
+
 (* ---- the store universes: trees and indexes evaluated once ---- *)
 StoreUniverses == {n \in UniverseNames : \E k \in 1..Len(n) : SubSeq(n, k, Len(n)) = ":complete"} \cup {"any:all"}
 UTree == [j \in BOOLEAN |-> [n \in StoreUniverses |-> [c \in Cfgs |->
